@@ -38,6 +38,76 @@ impl<'a> Table<u64, &'a entry::SatPointValue> {
 use self::entry::SatPointValue;
 
 pub mod updater_extract; // GENERATED: real text of Updater::index_transaction_sats
+pub mod balance_extract; // GENERATED: real text of Index::encode_rune_balance
+pub mod rune_updater_extract; // GENERATED: real text of RuneUpdater::index_runes
+pub mod event; // real
+pub mod rune_ref; // reference written from the specification (not ord code)
+pub mod rune_shim; // SHIM: Runestone::decipher returning a planted artifact
+pub use self::event::Event;
+use self::entry::OutPointValue;
+
+/// SHIM for tokio's mpsc::Sender (events are optional; the checks run with no receiver).
+pub mod mpsc {
+  pub struct Sender<T>(pub std::marker::PhantomData<T>);
+  impl<T> Sender<T> {
+    pub fn blocking_send(&self, _event: T) -> super::Result<()> {
+      Ok(())
+    }
+  }
+}
+
+/// SHIM for the rune-balances redb table: records what is written.
+pub struct BalanceTable {
+  pub log: Vec<(OutPointValue, Vec<u8>)>,
+}
+
+impl BalanceTable {
+  pub fn insert(&mut self, k: &OutPointValue, v: &[u8]) -> Result<()> {
+    self.log.push((*k, v.to_vec()));
+    Ok(())
+  }
+}
+
+/// SHIM for the fields of RuneUpdater that `index_runes` touches directly. The four
+/// helper methods below are the real struct's table/RPC-facing methods; their bodies here
+/// are placeholders that the checks replace by stated stubs (E2 overrides) or, in the native
+/// replay, by values planted in `stub`.
+pub struct RuneUpdater<'a> {
+  pub burned: HashMap<RuneId, Lot>,
+  pub event_sender: Option<&'a mpsc::Sender<Event>>,
+  pub height: u32,
+  pub outpoint_to_balances: &'a mut BalanceTable,
+  pub stub: RuneStub,
+}
+
+#[derive(Default, Clone)]
+pub struct RuneStub {
+  pub unallocated: Vec<(RuneId, u128)>,
+  pub mint: Option<u128>,
+  pub etched: Option<(RuneId, Rune)>,
+}
+
+impl RuneUpdater<'_> {
+  fn unallocated(&mut self, _tx: &Transaction) -> Result<HashMap<RuneId, Lot>> {
+    let mut m = HashMap::new();
+    for (id, v) in &self.stub.unallocated {
+      *m.entry(*id).or_default() += Lot(*v);
+    }
+    Ok(m)
+  }
+
+  fn mint(&mut self, _id: RuneId) -> Result<Option<Lot>> {
+    Ok(self.stub.mint.map(Lot))
+  }
+
+  fn etched(&mut self, _tx_index: u32, _tx: &Transaction, _artifact: &Artifact) -> Result<Option<(RuneId, Rune)>> {
+    Ok(self.stub.etched)
+  }
+
+  fn create_rune_entry(&mut self, _txid: Txid, _artifact: &Artifact, _id: RuneId, _rune: Rune) -> Result {
+    Ok(())
+  }
+}
 
 pub mod entry; // real
 pub mod lot; // real
